@@ -199,5 +199,5 @@ def main(tier):
     js = jobs(common.level("C11", tier))
     if common.level("C11", tier) == "deep":
         js = common.widen(js, by=(1, 2, 3))
-    return common.run_space_check("C11", tier, js, RULE, ASSUME, budget_s=110 if tier == "quick" else 1500,
+    return common.run_space_check("C11", tier, js, RULE, ASSUME, budget_s=480 if tier == "quick" else 3000,
                                   confirm=confirm, witness=witness)
